@@ -87,7 +87,7 @@ KW = ["a", "b", "c"]
 
 
 def gen_spec(rnd: random.Random, nitems: int, flavour: str = "mixed", per_obs: bool = False,
-             raising: float = 0.0) -> dict:
+             raising: float = 0.0, custom: float = 0.0) -> dict:
     """items refer to earlier items by index; ref = idx (the node / the Var) or [idx, "vn"] (value node
     of a Var, read directly)"""
     items: list[dict] = []
@@ -152,8 +152,18 @@ def gen_spec(rnd: random.Random, nitems: int, flavour: str = "mixed", per_obs: b
         if k == "value":
             items.append({"k": "value", "v": rnd.randint(-50, 50), "data": rnd.random() < 0.2})
         elif k in ("calc", "tcalc"):
+            if custom and k == "calc" and rnd.random() < 0.35:
+                # lsl.PIT(var): a caching node (PITCalc) that derives directly from Node
+                cand = [j for j, jt in enumerate(items) if jt["k"] == "var" and jt.get("dist") and "pit" not in jt["dist"]]
+                if cand:
+                    j = rnd.choice(cand)
+                    items[j]["dist"]["pit"] = {"item": i, "fs": fs_for(1)}
+                    items.append({"k": "pit", "of": j, "fs": items[j]["dist"]["pit"]["fs"]})
+                    continue
             ins, kws, kwn = args()
             it = {"k": k, "ins": ins, "kw": kws, "kwn": kwn, "fs": fs_for(len(ins) + len(kws))}
+            if custom and k == "calc" and rnd.random() < custom:
+                it["cls"] = "node"        # a harness subclass of lsl.Node that caches like Calc does
             items.append(rz(it) if k == "calc" else it)
         elif k == "tid":
             items.append({"k": "tid", "ins": pick_refs(1, False), "kw": [], "kwn": [], "fs": ["id"]})
@@ -176,6 +186,8 @@ def gen_spec(rnd: random.Random, nitems: int, flavour: str = "mixed", per_obs: b
                           tvalue=rnd.random() < 0.15)     # value node is a TransientCalc
                 if not it["tvalue"]:
                     rz(it)
+                    if custom and rnd.random() < custom:
+                        it["cls"] = "node"
             if items and rnd.random() < (0.65 if k == "wvar" else 0.5):
                 dins, dkws, dkwn = args(lo=1, hi=2)
                 it["dist"] = shape({"ins": dins, "kw": dkws, "kwn": dkwn, "fs": fs_for(len(dins) + len(dkws) + 1),
@@ -242,6 +254,21 @@ class Real:
             self.raise_spec[name] = it.get("raise")
             return fn
 
+        class HNode(lsl.Node):
+            """a caching node that is neither a Calc nor a Dist: derives directly from lsl.Node and implements
+            update() the way Calc does (another realisation of the model's Cached kind)"""
+
+            def __init__(hself, function, *inputs, _name="", **kwinputs):
+                super().__init__(*inputs, _name=_name, **kwinputs)
+                hself._function = function
+
+            def update(hself):
+                args = [_input.value for _input in hself.inputs]
+                kwargs = {kw: _input.value for kw, _input in hself.kwinputs.items()}
+                hself._value = hself._function(*args, **kwargs)
+                hself._outdated = False
+                return hself
+
         def make_dist(name, d, refs_in, refs_kw, kwn):
             fs = d["fs"]
             outer = self
@@ -262,6 +289,13 @@ class Real:
                         c = d.get("split", 7)
                         return LP([t - c, c])
                     return t
+
+                def cdf(self, at):
+                    # read by lsl.PIT's PITCalc: a function of the log-probability at the current values
+                    pit = d["pit"]
+                    if outer.logging:
+                        outer.log.append(f"v{pit['item']}_value")
+                    return apply_fs(pit["fs"], [apply_fs(fs, self.vals + [at])])
             outer.dist_spec[name] = d
             outer.raise_spec[name] = d.get("raise")
             return HDist
@@ -271,8 +305,12 @@ class Real:
             if k == "value":
                 cls = lsl.Data if it.get("data") else lsl.Value
                 o = cls(it["v"], _name=f"n{i}")
+            elif k == "pit":
+                o = lsl.PIT(objs[it["of"]], name=f"v{i}")
             elif k in ("calc", "tcalc"):
                 cls = lsl.Calc if k == "calc" else lsl.TransientCalc
+                if it.get("cls") == "node":
+                    cls = HNode
                 o = cls(make_fn(f"n{i}", it, it["ins"], it["kw"], it["kwn"]),
                         *[resolve(r) for r in it["ins"]], _name=f"n{i}",
                         **{n: resolve(r) for n, r in zip(it["kwn"], it["kw"])})
@@ -304,7 +342,7 @@ class Real:
                     if not d.get("per_obs", True):
                         dist.per_obs = False
                 if it["weak"]:
-                    cls = lsl.TransientCalc if it.get("tvalue") else lsl.Calc
+                    cls = lsl.TransientCalc if it.get("tvalue") else (HNode if it.get("cls") == "node" else lsl.Calc)
                     val = cls(make_fn(f"v{i}_value", it, it["ins"], it["kw"], it["kwn"]),
                               *[resolve(r) for r in it["ins"]],
                               **{n: resolve(r) for n, r in zip(it["kwn"], it["kw"])})
@@ -315,6 +353,8 @@ class Real:
                     o.observed = True
                 elif it["role"] == "par":
                     o.parameter = True
+            if k == "pit" and not o.name:
+                raise AssertionError("PIT variable without name")
             objs.append(o)
             roots.append(o)
         self.objs = objs
@@ -988,12 +1028,13 @@ def has_harness_raise(ex):
     return False
 
 
-def make_case(rnd, quick, scenario, flavour, size=None, require=None, prebuild=None, raising=0.0):
+def make_case(rnd, quick, scenario, flavour, size=None, require=None, prebuild=None, raising=0.0, custom=0.0):
     for _try in range(200):
         nitems = size or (rnd.randint(2, 7) if quick else rnd.choice([rnd.randint(2, 8), rnd.randint(6, 16)]))
         if require and _try > 0:
             nitems = max(nitems, 5)
-        spec = gen_spec(rnd, nitems, "transient" if require and _try > 3 else flavour, per_obs=True, raising=raising)
+        spec = gen_spec(rnd, nitems, "transient" if require and _try > 3 else flavour, per_obs=True, raising=raising,
+                        custom=custom)
         spec = add_prebuild(rnd, spec, prebuild)
         oseed = rnd.randrange(2 ** 30)
         try:
@@ -1071,6 +1112,17 @@ CORPUS = [
      "ops_by_name": [["assign", "n0", 2, "node"], ["update", []], ["save"], ["update", ["n1"]],
                      ["assign", "n0", 3, "node"], ["restore", 0], ["update", ["n3"]], ["auto", False],
                      ["assign", "n0", 5, "node"], ["update", []]]},
+    # caching nodes that are neither Calc nor Dist: harness subclass of lsl.Node, lsl.PIT   (seeded C01-11)
+    {"spec": {"items": [{"k": "value", "v": 1, "data": False},
+                        {"k": "calc", "ins": [0], "kw": [], "kwn": [], "fs": ["aff", 3, [2]], "cls": "node"},
+                        {"k": "calc", "ins": [1], "kw": [], "kwn": [], "fs": ["aff", 5, [3]]},
+                        {"k": "var", "weak": False, "role": "par", "v": 4,
+                         "dist": {"ins": [2], "kw": [], "kwn": [], "fs": ["aff", 4, [3, 5]], "transient": False,
+                                  "pit": {"item": 4, "fs": ["aff", 6, [2]]}}},
+                        {"k": "pit", "of": 3, "fs": ["aff", 6, [2]]},
+                        {"k": "calc", "ins": [4, 1], "kw": [], "kwn": [], "fs": ["aff", 1, [2, 3]]}]},
+     "ops_by_name": [["assign", "n0", 7, "node"], ["auto", False], ["assign", "n0", 9, "node"], ["update", ["n5"]],
+                     ["assign", "v3_value", 2, "var"], ["update", ["v4_value"]], ["update", []]]},
     # values assigned between node creation and build, then build -> pop -> assign -> build   (seeded C01-8)
     {"spec": {"items": [{"k": "var", "weak": False, "role": "", "v": 3},
                         {"k": "calc", "ins": [0], "kw": [], "kwn": [], "fs": ["aff", 2, [7]]},
@@ -1126,7 +1178,7 @@ def generate(ctx):
             scenario = "raise_continue"
         cases.append(make_case(rnd, ctx.quick, scenario, flavour,
                                require="transient_between_cached" if i % 3 == 1 else None, prebuild=prebuild,
-                               raising=raising))
+                               raising=raising, custom=0.3 if i % 2 == 0 else 0.0))
         i += 1
     nops = 0
     distinct = set()
@@ -1138,6 +1190,12 @@ def generate(ctx):
         ctx.hist("nodes." + ("<=8" if n <= 8 else "9-13" if n <= 13 else "14-24" if n <= 24 else ">=25"))
         for f in features(pg):
             ctx.hist("graph." + f)
+        ncust = sum(1 for it in c["spec"]["items"] if it.get("cls") == "node")
+        npit = sum(1 for it in c["spec"]["items"] if it["k"] == "pit")
+        if ncust:
+            ctx.hist("cached_kind.harness_subclass_of_Node", ncust)
+        if npit:
+            ctx.hist("cached_kind.lsl_PIT", npit)
         if c["spec"].get("pre"):
             ctx.hist("build.assignments_between_creation_and_build")
         if c["spec"].get("rebuild"):
